@@ -459,9 +459,9 @@ func c05Aggregator(c *Ctx, A *ssa.Function, rc map[string]int64) {
 	}
 	ip := &Interp{Fn: A, Hook: hook, IntTypes: map[string]bool{resType: true}}
 	type hstate struct {
-		vals                []AVal
+		vals                 []AVal
 		sawRevoked, sawNonOK bool
-		early               bool
+		early                bool
 	}
 	key := func(s hstate) string { return stateKey(s.vals, []bool{s.sawRevoked, s.sawNonOK, s.early}) }
 	envOf := func(s hstate) map[ssa.Value]AVal {
